@@ -412,7 +412,15 @@ impl AdvancedStringVec {
         // Try aggressive overlap detection (allows overlapping)
         if s_bytes.len() >= self.config.min_overlap_length {
             if let Some(overlap_result) = self.find_overlapping_match(s_bytes) {
-                let (existing_offset, _overlap_len) = overlap_result;
+                let (existing_offset, covered) = overlap_result;
+                // a partial overlap (suffix of a stored string = prefix of the new one) only helps when
+                // that stored string ends the arena: the rest of the new string is appended behind it
+                if covered < s_bytes.len() {
+                    if existing_offset + covered != self.arena.len() {
+                        return self.store_new_string(s_bytes);
+                    }
+                    self.arena.extend_from_slice(&s_bytes[covered..]);
+                }
                 let entry = BitPackedEntry::new(existing_offset, s_bytes.len())?;
                 let index = self.entries.len();
                 self.entries.push(entry);
@@ -615,8 +623,8 @@ impl AdvancedStringVec {
         // Check for prefix overlap (existing string ends with prefix of new string)
         for overlap_len in (min_overlap..existing.len().min(new.len())).rev() {
             if existing[existing.len() - overlap_len..] == new[..overlap_len] {
-                // Found overlap - new string can extend from existing
-                return Some((existing.len() - overlap_len, new.len()));
+                // Found overlap - new string can extend from existing; report how much is covered
+                return Some((existing.len() - overlap_len, overlap_len));
             }
         }
 
